@@ -43,12 +43,12 @@ CHECKS = {
     "C08": (
         "PBT evaluating the stated per-node position/losslessness predicates on every node of every LR tree and GLR forest tree under generated layout (ws and LAYOUT-rule comments), plus instrumented actions recording the positions callbacks receive",
         "Exploration: for every sentence (all token strings up to 4-5 tokens, rendered with generated layout before, between and after tokens; single-character, multi-character and overlapping lexicons; ws-based and comment LAYOUT grammars) every node of the LR build_tree result and of up to 40-200 forest trees + get_first_tree is checked: integer in-bounds positions, terminal value = input slice, ordered non-overlapping siblings, children inside parents, layout_content+value concatenation reproduces the input, and the positions seen by actions (on the fly and via call_actions) equal the tree's; for grammars whose every right-hand-side symbol is a named match, the objects built by the default obj action (LR on the fly, call_actions, GLR lazy/non-lazy trees) are walked in parallel with the parse tree: _pg_start_position/_pg_end_position and token values must agree node by node.",
-        "Trusted: pv/ref_chart.py for sentence selection. Known finding D17 (GLR packed node keeps the span of its first alternative) relaxes only the three span-relation predicates on GLR trees and only when the disagreeing region consists of layout characters. LR and GLR placements of empty nodes are not compared with each other.",
+        "Trusted: pv/ref_chart.py for sentence selection. Known finding D17 (GLR packed node keeps the span of its first alternative) relaxes only the three span-relation predicates on GLR trees and only when the disagreeing region consists of layout characters; on the deterministic d17-pinned-corpus (473 grammar/layout combinations) the recorded manifestation is required exactly. LR and GLR placements of empty nodes are not compared with each other.",
         "DESIGN.md section 6/C08"),
     "C11": (
         "PBT over generated corruptions (junk insertion into every short token string, generated character strings) with default and two progress-guaranteeing custom recovery strategies; oracles: deterministic step budget, span discipline, derivation check of the recovered tree against the reference recogniser, per-character coverage",
         "Exploration: for generated deterministic-class grammars (LR), arbitrary generated grammars (GLR), nullable-chain grammars and the prioritised expression grammar, every token string up to 3-4 tokens with one or two junk tokens inserted plus generated strings up to 14 characters is parsed with error_recovery=True, a skip-to-next-line strategy and an inject-one-expected-token-per-position strategy: parse must finish within the step budget with a result + parser.errors or a raised SyntaxError; spans must be in bounds, start<=end, ordered and disjoint; with the default strategy every returned tree (LR tree, first 30 forest trees) must be a derivation whose leaves are input slices in increasing order and, for LR, every non-layout character must lie in exactly one leaf or one span; sentences must give no error and the non-recovering parser's result.",
-        "Trusted: pv/ref_chart.py. LR is exercised on tables that are deterministic without strategies and on the statically prioritised expression grammar. Known finding D18 (GLR heads at different positions share one error span) is tolerated only for the ordering/overlap clause in parses where the strategy was observed to be invoked for one error on heads at different positions.",
+        "Trusted: pv/ref_chart.py. LR is exercised on tables that are deterministic without strategies and on the statically prioritised expression grammar. Known finding D18 (GLR heads at different positions share one error span) is tolerated only for the ordering/overlap clause in parses where the strategy was observed to be invoked for one error on heads at different positions, and not at all on the deterministic d18-pinned-corpus (7694 corrupted sentences of grammars that keep several heads alive at an error; D18 does not show there on the unchanged tree). Known finding D1 (GLR rejects a sentence) is inherited by the recovering GLR parser and tolerated by D1's signature plus 'the same parser without recovery rejects it too'.",
         "DESIGN.md section 6/C11"),
     "C12": (
         "model-based PBT over generated histories on one grammar directory (builds with varying options, edits of root / import / second-level import / error-example file, touches with a logical clock, pglr compile, deletion, truncation to generated byte prefixes and injected crashes during the write of the table cache .pgc and of the compiled error hints .pgec) compared with builds from pristine copies without caches; fault enumeration over byte prefixes of reference caches; save/load round-trip PBT with a lock-step walk of both automata",
@@ -62,7 +62,7 @@ CHECKS = {
         "DESIGN.md section 6/C13"),
     "C14": (
         "metamorphic PBT (two generated layouts of the same token string must give the same parse / offending-token index) + differential PBT (ws parameter vs equivalent LAYOUT rules)",
-        "Exploration: every token string up to 3-4 tokens (sentences, non-sentences, junk) of every generated grammar is rendered with two independently generated layout patterns (whitespace; line and nested block comments under a LAYOUT rule) and parsed by LR and GLR: acceptance, LR result, the set of position-free GLR trees and the index of the offending token must agree; for ws grammars an equivalent LAYOUT rule (4 formulations) must give identical trees, node positions, layout_content and error positions.",
+        "Exploration: every token string up to 3-4 tokens (sentences, non-sentences, junk) of every generated grammar is rendered with two independently generated layout patterns (whitespace; line and nested block comments under a LAYOUT rule) and parsed by LR and GLR: acceptance, LR result, the set of position-free GLR trees and the index of the offending token must agree; for ws grammars an equivalent LAYOUT rule (4 formulations) must give identical trees, node positions, layout_content and error positions; the table kind (LALR/SLR) and priorities on the layout terminals are generated parser options that must not matter.",
         "Trusted: the renderer never changes token boundaries (single-character terminals or forced separators). Messages/tokens_ahead are not compared between ws and LAYOUT parsers.",
         "DESIGN.md section 6/C14"),
     "C15": (
@@ -77,12 +77,12 @@ CHECKS = {
         "DESIGN.md section 6/C16"),
     "C17": (
         "differential PBT: GLR/LR with consume_input=False vs union of reference derivations over all sentence prefixes (Earley prefix ends)",
-        "Exploration: every token string up to 4-5 tokens (every sentence followed by every continuation, incl. junk) is parsed with consume_input=False; the set of trees expanded from the GLR forest must equal the union over all sentence prefixes of the reference derivations (each once) and SyntaxError is allowed only when no prefix is a sentence; the root of every tree must end where its own prefix ends (not where the longest one does); the LR result must be a derivation of a prefix that is a sentence.",
+        "Exploration: every token string up to 4-5 tokens (every sentence followed by every continuation, incl. junk) is parsed with consume_input=False; the set of trees expanded from the GLR forest must equal the union over all sentence prefixes of the reference derivations (each once) and SyntaxError is allowed only when no prefix is a sentence; the root of every tree must end where its own prefix ends (not where the longest one does); the LR result must be a derivation of a prefix that is a sentence; sub-check random-L1-overlapping repeats the GLR comparison (lexical disambiguation off) on overlapping terminals over every string up to 5 characters.",
         "Trusted: pv/ref_chart.py. Known findings: D10 (lexical_disambiguation=True drops STOP; pinned by the suite) tolerated only for prefixes followed by a token; D1/D2 by their signatures.",
         "DESIGN.md section 6/C17"),
     "C09": (
         "differential PBT across the evaluation routes (on the fly, build_tree+call_actions, GLR+call_actions lazy/non-lazy/first tree) and against a reference evaluator applied to the derivation the LR parser built; generated action tables, named matches and repetition sugar",
-        "Exploration: generated grammars decorated with * + ? (with and without separators), named matches = and ?= at generated positions and an action table (none | one callable | per-alternative list; terminal actions); every accepted token string up to 4-5 tokens is evaluated by all routes with tagging actions that expose argument order, alternative index and bindings; all results must equal the reference evaluation of the built tree; without user actions the nested-list default (single-child unpacking, obj for rules with named matches, documented results of +,*,?) is checked the same way.",
+        "Exploration: generated grammars decorated with * + ? (with and without separators), named matches = and ?= at generated positions and an action table (none | one callable | per-alternative list; terminal actions); every accepted token string up to 4-5 tokens is evaluated by all routes with tagging actions that expose argument order, alternative index and bindings; all results must equal the reference evaluation of the built tree; without user actions the nested-list default (single-child unpacking, obj for rules with named matches, documented results of +,*,?) is checked the same way; results are compared with their container types (lists stay lists); for non-empty action sets the Grammar object is optionally used with a decoy action set first.",
         "Trusted: reference evaluator in pv/props/c09.py (docs/actions.md, docs/grammar_language.md). Which derivation a prefer-shifts LR parser commits to is not this property's subject: the reference evaluates the tree the parser built.",
         "DESIGN.md section 6/C09"),
     "C10": (
@@ -92,13 +92,13 @@ CHECKS = {
         "DESIGN.md section 6/C10"),
     "C05": (
         "differential PBT against an own canonical-LR(1)/LALR(1) construction; exhaustive tiny-grammar enumeration + Hypothesis random grammars; sys.monitoring line budget for termination",
-        "Exploration: every generated productive grammar (exhaustive tiny space, random small/medium, pinned classics) x {LALR,SLR} x {main,LAYOUT start} is built under a reference-derived step budget and the resulting automaton is simulated against an independently constructed canonical LR(1) automaton (no action/goto missing), LALR reductions are checked to lie inside reference LALR(1) lookaheads, and reported conflicts must be reference conflicts. Holds on everything explored; no absence claim beyond the explored sizes.",
+        "Exploration: every generated productive grammar (exhaustive tiny space, random small/medium, pinned classics) x {LALR,SLR} x {main,LAYOUT start} is built under a reference-derived step budget and the resulting automaton is simulated against an independently constructed canonical LR(1) automaton (no action/goto missing), LALR reductions are checked to lie inside reference LALR(1) lookaheads, and reported conflicts must be reference conflicts; half of the cases with a LAYOUT rule build the table for the other start production first on the same Grammar object (what Parser() does). Holds on everything explored; no absence claim beyond the explored sizes.",
         "Trusted: pv/ref_lr.py (textbook LR(1)/LALR(1)), Hypothesis, the step-budget calibration (budget = 1500 x reference work + 4e5 lines, observed max < 0.1 of budget). Grammars up to 6 non-terminals / 5 terminals; reference capped at 400 LR(1) states.",
         "DESIGN.md section 6/C05"),
     "C19": (
         "differential PBT: inline vs declared string terminals, and both vs a reference scanner (literal matching + whole-word rule for KEYWORD-matched strings + documented disambiguation) over generated texts with punctuation, quotes and escapes",
         "Exploration: generated and enumerated texts (letters, digits, '_', . | + * ( ) [ ] backslash, quotes, new line, tab) as t1,t2,t3 in 'S: t1 t2 | t3 ID' with optional KEYWORD regex (5 choices), 3 identifier regexes, both quote styles, ignore_case; the inline grammar must construct iff the declared one does and both LR parsers must agree on every probe input (concatenations of the texts/identifiers/spaces, glued and case-changed variants); the declared parser must agree with the reference scanner on result values, rejection position and ambiguity.",
-        "Trusted: reference scanner in pv/props/c19.py. Known findings by text predicate: D11a (dot), D11b (backslash followed by n/t/quote/backslash: double unescape), D11c (text equals a rule name), D11d (EMPTY/STOP); each relaxes only the clause it concerns and cases are still generated and counted.",
+        "Trusted: reference scanner in pv/props/c19.py. Known findings by text predicate: D11a (dot), D11b (backslash followed by n/t/quote/backslash: double unescape), D11c (text equals a rule name), D11d (EMPTY/STOP); each relaxes only the clause it concerns and cases are still generated and counted. Literals are written with either quote style and with the other quote kind optionally escaped as well.",
         "DESIGN.md section 6/C19"),
     "C20": (
         "differential PBT: modular grammars written to a temporary directory (generated import graphs: chain, diamond, cycle, arbitrary; aliases; sub-directories; qualified references of any depth; overrides) vs the single-file grammar produced by an own flattener; recorded behaviour on a deterministic override + multi-path corpus",
